@@ -227,5 +227,13 @@ func c01Exec(t *testing.T, sc *gen.Scenario, trace bool) *harness.Outcome {
 func Props() []*harness.Prop {
 	return []*harness.Prop{
 		{ID: "C01", Gen: c01Gen, Exec: c01Exec},
+		{ID: "C02", Gen: c02Gen, Exec: c02Exec},
+		{ID: "C03", Gen: c03Gen, Exec: c03Exec},
+		{ID: "C04", Gen: c04Gen, Exec: c04Exec},
+		{ID: "C05", Gen: c05Gen, Exec: c05Exec},
+		{ID: "C06", Gen: c06Gen, Exec: c06Exec},
+		{ID: "C07", Gen: c07Gen, Exec: c07Exec},
+		{ID: "C30", Gen: c30Gen, Exec: c30Exec},
+		{ID: "C32", Gen: c32Gen, Exec: c32Exec},
 	}
 }
